@@ -198,6 +198,36 @@ def rewrite_fn(item, in_trait_impl, log):
                             names.append(nm); assigns.append("%s = %s;" % (p, nm))
                     repl = "let (%s) = %s; %s" % (", ".join(names), re.sub(r"\s+", " ", rhs), " ".join(assigns))
                     edits.append((t.s, semi.e, repl)); log.add("R2")
+        if t.kind == "punct" and t.text == "|":
+            # R11/W2: closure literal: put the body braces on their own lines (brace-wrap a bare-expression body) so that a
+            # closure contract (`-> (r: T) requires .. ensures ..`) can be attached between `|params|` and `{`
+            prev = toks[sigidx[n-1]] if n > 0 else None
+            starts_closure = prev is not None and ((prev.kind == "punct" and prev.text in ("(", ",", "=")) or (prev.kind == "ident" and prev.text in ("move", "return")))
+            if starts_closure and not getattr(t, "_closure_done", False):
+                # closing '|' of the parameter list
+                j = n + 1
+                while j < len(sigidx) and not (toks[sigidx[j]].kind == "punct" and toks[sigidx[j]].text == "|"):
+                    if toks[sigidx[j]].kind == "punct" and toks[sigidx[j]].text in rustlex.OPEN:
+                        j = pos[match_forward(toks, sigidx[j])]
+                    j += 1
+                if j < len(sigidx) - 1:
+                    close_bar = toks[sigidx[j]]
+                    try: close_bar._closure_done = True
+                    except Exception: pass
+                    nxt = toks[sigidx[j+1]]
+                    if nxt.kind == "punct" and nxt.text == "{":
+                        edits.append((nxt.s, nxt.s, "\n")); log.add("R11")
+                    elif not (nxt.kind == "punct" and nxt.text == "-"):
+                        # bare expression body: ends before the ')' / ',' / ';' that closes the enclosing context
+                        k = j + 1
+                        while k < len(sigidx):
+                            tk = toks[sigidx[k]]
+                            if tk.kind == "punct" and tk.text in rustlex.OPEN:
+                                k = pos[match_forward(toks, sigidx[k])] + 1; continue
+                            if tk.kind == "punct" and tk.text in (")", ",", ";", "]", "}"): break
+                            k += 1
+                        last = toks[sigidx[k-1]]
+                        edits.append((nxt.s, nxt.s, "\n{\n")); edits.append((last.e, last.e, "\n}")); log.add("R11")
         if t.kind == "punct" and t.text == "#":
             # statement attribute inside a body, e.g. #[allow(..)] / #[inline] : drop (R7)
             nx = toks[sigidx[n+1]]
@@ -466,7 +496,8 @@ def process_unit(path, meta, update_mirror=False):
             wrap = header not in ("-", "")
             if wrap:
                 new_lines = [header.strip() + " {"] + new_lines + ["}"]
-            if mode == "stub":
+            fid0 = "%s|%s|%s" % (file, norm_header(header) if wrap else "-", name)
+            if mode == "stub" or fid0 in STUBIFY:
                 # keep signature + contract only
                 kb = next(k for k, x in enumerate(new_lines) if x.strip() == "{")
                 sig_lines = new_lines[:kb]
@@ -537,6 +568,7 @@ def process_unit(path, meta, update_mirror=False):
     return out
 
 CANARY = set()
+STUBIFY = set()  # function ids emitted as contract-only stubs although their mode is `body`: fallback when the changed text no longer compiles in the verification crate
 STRIP = set()   # function ids whose body annotations are dropped (contract kept): fallback when hints no longer compile
 
 def strip_body_annotations(merged):
